@@ -31,3 +31,12 @@ def run(project, chk):
         return "H2" if r.atom[0] == "imp" else "H1"
     n = report(project, chk, "C02", rule_of, out)
     chk.floor("never-harms obligations", n, 60)
+
+
+_run_own = run
+
+
+def run(project, chk):      # noqa: F811  (borrowed rules first: an established violation outlives a later inconclusive rule)
+    from checks._borrow import borrow
+    borrow(project, chk, "C13", {"W1", "W2", "W5"}, "H6", "'after compositing any transparency': the text colour is composited over the pair's own background before it is judged and fixed, and the optimiser is handed the composite (C13's wiring rules)")
+    _run_own(project, chk)
